@@ -2830,7 +2830,9 @@ class LazyStackedTensorDict(TensorDictBase):
             self.tensordicts = tensordicts
             self.stack_dim = stack_dim
             return self
-        return LazyStackedTensorDict.maybe_dense_stack(tensordicts, dim=stack_dim)
+        # keep the stack lazy: a dense stack would copy the entries, while expand must
+        # return views of the source (as it does for every other tensordict type)
+        return type(self)(*tensordicts, stack_dim=stack_dim)
 
     @lock_blocked
     def update(
